@@ -191,8 +191,9 @@ impl Language for Python {
         _generic_types: &[String],
     ) -> Result<String, RustTypeFormatError> {
         self.add_imports(base);
-        Ok(if let Some(mapped) = self.type_map().get(base) {
-            mapped.into()
+        Ok(if let Some(mapped) = self.type_map().get(base).cloned() {
+            self.add_imports_for_mapped_type(&mapped);
+            mapped
         } else {
             base.into()
         })
@@ -203,12 +204,13 @@ impl Language for Python {
         special_ty: &SpecialRustType,
         generic_types: &[String],
     ) -> Result<String, RustTypeFormatError> {
-        if let Some(mapped) = self.type_mappings.get(&special_ty.to_string()) {
-            if json_translation_for_type(mapped).is_some() {
+        if let Some(mapped) = self.type_mappings.get(&special_ty.to_string()).cloned() {
+            if json_translation_for_type(&mapped).is_some() {
                 self.types_for_custom_json_translation
                     .insert(mapped.to_string());
             }
-            return Ok(mapped.to_owned());
+            self.add_imports_for_mapped_type(&mapped);
+            return Ok(mapped);
         }
         match special_ty {
             SpecialRustType::Array(rtype, _)
@@ -430,6 +432,14 @@ impl Python {
         }
         if is_aliased || is_optional {
             self.add_import("pydantic".to_string(), "Field".to_string());
+        }
+    }
+
+    /// A type mapping may name `datetime`, which is not a builtin: the generated module (and the
+    /// translation helpers emitted for it) need the import that `OffsetDateTime` gets.
+    fn add_imports_for_mapped_type(&mut self, mapped: &str) {
+        if mapped == "datetime" {
+            self.add_import("datetime".to_string(), "datetime".to_string());
         }
     }
 
